@@ -29,11 +29,13 @@ DOCS = [
   ("three-steps", [["r1", "abg=red abg=blue abg=green"]],
    ["body", "", [["div", "r=r1", [["p", "b e", [S("A", "ac ac=green ac=blue")]]]]]]),
   ("no-body", [["r1", "abg=red"], ["r2", "b"]], None),
+  ("nested-region-refs", [["r1", ""], ["r2", ""], ["r3", "b"]],
+   ["body", "", [["div", "r=r2", [["p", "r=r2 b e", [S("A", "")]], ["p", "", [S("B", "")]]]], ["div", "r=r3", [["p", "", [S("C", "r=r3")]]]]]]),
   ("span-region-refs", [["r1", ""], ["r2", "e"]],
    ["body", "", [["div", "", [["p", "", [S("A", "r=r1 b e"), S("B", "r=r2")]]]]]]),
 ]
 
-LAYOUTS = ["none", "origin-extent-pct", "origin-px-extent-c", "position-pct-extent-pct", "position-edges-no-extent", "origin-only", "extent-rh"]
+LAYOUTS = ["none", "origin-extent-pct", "origin-px-extent-c", "position-pct-extent-pct", "position-edges-no-extent", "origin-only", "extent-rh", "origin-and-position"]
 WM = [None, styles.WritingModeType.lrtb, styles.WritingModeType.rltb, styles.WritingModeType.tblr, styles.WritingModeType.tbrl]
 DA = [None, styles.DisplayAlignType.before, styles.DisplayAlignType.center, styles.DisplayAlignType.after]
 
@@ -41,7 +43,7 @@ DA = [None, styles.DisplayAlignType.before, styles.DisplayAlignType.center, styl
 def style_region(ex, region, k, layout, tags):
   name = region.get_id()
   L = styles.LengthType
-  if layout in ("origin-extent-pct", "origin-only"):
+  if layout in ("origin-extent-pct", "origin-only", "origin-and-position"):
     ox, oy = ex.real(name + "_ox", 0, 100), ex.real(name + "_oy", 0, 100)
     region.set_style(SP.Origin, styles.CoordinateType(x=L(ox, U.pct), y=L(oy, U.pct)))
   if layout == "origin-extent-pct":
@@ -52,7 +54,7 @@ def style_region(ex, region, k, layout, tags):
     region.set_style(SP.Origin, styles.CoordinateType(x=L(ox, U.px), y=L(oy, U.px)))
     w, h = ex.real(name + "_w", 0, 32), ex.real(name + "_h", 0, 15)
     region.set_style(SP.Extent, styles.ExtentType(height=L(h, U.c), width=L(w, U.c)))
-  if layout in ("position-pct-extent-pct", "position-edges-no-extent"):
+  if layout in ("position-pct-extent-pct", "position-edges-no-extent", "origin-and-position"):
     px, py = ex.real(name + "_px", 0, 100), ex.real(name + "_py", 0, 100)
     he = [styles.PositionType.HEdge.left, styles.PositionType.HEdge.right][ex.choice(name + "_hedge", 2)]
     ve = [styles.PositionType.VEdge.top, styles.PositionType.VEdge.bottom][ex.choice(name + "_vedge", 2)]
@@ -86,7 +88,7 @@ class LcdHarness(Harness):
                  "timeline documents carry no display/visibility/opacity styling (the property excludes them)")
   outside = ("documents other than the listed skeletons x layout kinds; em units on regions; more than 2 regions with symbolic geometry",)
   required_witnesses = ("regions-merged", "regions-kept-apart", "display-align-before", "display-align-after", "steps-removed")
-  bounds = {"quick": "%d documents x 7 region layout kinds (origin/extent/position in %%, px, c, rh; edges) x 5 writing modes x 4 "
+  bounds = {"quick": "%d documents x 8 region layout kinds (origin/extent/position in %%, px, c, rh; edges) x 5 writing modes x 4 "
                      "displayAlign x config (safe_area symbolic int 0..30, preserve_text_align, color, bg_color), all geometry "
                      "and times symbolic rationals, 0-3 animation steps per element" % len(DOCS),
             "thorough": "same with second-region layout varied independently"}
@@ -94,13 +96,14 @@ class LcdHarness(Harness):
 
   # quick tier: (doc, layouts, cfgs, #writing modes r1, #displayAlign r1, #writing modes r2)
   QUICK = [
-    (0, range(7), range(4), 5, 4, 1),
+    (0, range(8), range(4), 5, 4, 1),
     (1, (0, 1), (0, 3), 3, 2, 2),
     (1, (3,), (0,), 1, 1, 2),
     (2, (0, 1), (0,), 1, 1, 1),
     (3, (0,), (0, 1), 1, 1, 1),
     (4, (0, 3), range(4), 2, 2, 1),
-    (5, (0, 3), (0, 3), 1, 1, 1),
+    (5, (0, 7), (0, 3), 1, 1, 1),
+    (6, (0, 3), (0, 3), 1, 1, 1),
   ]
 
   def partitions(self, tier):
@@ -145,6 +148,7 @@ class LcdHarness(Harness):
     cfg = LCDDocFilterConfig(safe_area=sa, preserve_text_align=preserve, color=color, bg_color=bg)
     had_steps = any(True for n in info.nodes + info.regions if n.elem is not None and list(n.elem.iter_animation_steps()))
     stags = sorted(tags)
+    had_ref = [n for n in info.nodes if n.elem is not None and n.kind not in ("text", "br") and n.elem.get_region() is not None]
     _, exc = call(ex, LCDDocFilter(cfg).process, doc)
     if exc:
       ex.fail("C18:lcd-filter-raises", {"site": exc[1], "exc": type(exc[0]).__name__, "tags": stags})
@@ -199,6 +203,9 @@ class LcdHarness(Harness):
     for e in elems:
       r = e.get_region()
       ex.prove(r is None or doc.get_region(r.get_id()) is r, "C16:references-redirected", {"tags": stags})
+    for n in had_ref:
+      # an element that referenced a region keeps referencing one (the retained region its own was merged into)
+      ex.prove(n.elem.get_region() is not None, "C16:references-redirected", {"lost": True, "tags": stags})
     # (6) timeline: the text visible at t is what R-ISD says for the source document
     t = ex.real("t", 0)
     isd, exc = call(ex, ISD.from_model, doc, t)
